@@ -398,6 +398,12 @@ def run(chk):
     chk.require(nd >= 100, 'deadline arithmetic evaluated on only %d grid points' % nd)
     chk.extra['wait_paths'] = nw
     chk.extra['notify_paths'] = nn
+    # R17.8: "neither deadlocks" - wait and notify take the memory's mutex, which memory.grow, memory.size and (in the mutex-based
+    # configuration) every atomic access take as well: each of those functions releases it on every path, otherwise the next wait or
+    # notify on that memory blocks forever (mutex-balance rule shared with C18 R18.6)
+    from . import c18
+    c18.check_mutex_discipline(chk, rule='R17.8')
+    chk.floor('R17.8', 20)
     chk.floor('R17.1', 12)
     chk.floor('R17.2', 20)
     chk.floor('R17.4', 10)
